@@ -837,6 +837,7 @@ func (db *BadgerDB) Put(ctx storage.Context, tk storage.TKey, v []byte) error {
 		return fmt.Errorf("Received nil context in Put()")
 	}
 
+	dvid.VerifPoint("badger.Put:before")
 	var err error
 	key := ctx.ConstructKey(tk)
 	if ctx.Versioned() {
@@ -859,6 +860,7 @@ func (db *BadgerDB) Put(ctx storage.Context, tk storage.TKey, v []byte) error {
 			return txn.Set(key, v)
 		})
 	}
+	dvid.VerifPoint("badger.Put:after")
 	storage.StoreKeyBytesWritten <- len(key)
 	storage.StoreValueBytesWritten <- len(v)
 	return err
@@ -870,9 +872,11 @@ func (db *BadgerDB) RawPut(k storage.Key, v []byte) error {
 	if db == nil {
 		return fmt.Errorf("Can't call RawPut on nil BadgerDB")
 	}
+	dvid.VerifPoint("badger.RawPut:before")
 	err := db.bdp.Update(func(txn *badger.Txn) error {
 		return txn.Set(k, v)
 	})
+	dvid.VerifPoint("badger.RawPut:after")
 	if err != nil {
 		return err
 	}
@@ -890,6 +894,7 @@ func (db *BadgerDB) Delete(ctx storage.Context, tk storage.TKey) error {
 	if ctx == nil {
 		return fmt.Errorf("Received nil context in Delete()")
 	}
+	dvid.VerifPoint("badger.Delete:before")
 	var err error
 	key := ctx.ConstructKey(tk)
 	if ctx.Versioned() {
@@ -912,6 +917,7 @@ func (db *BadgerDB) Delete(ctx storage.Context, tk storage.TKey) error {
 			return txn.Delete(key)
 		})
 	}
+	dvid.VerifPoint("badger.Delete:after")
 	return err
 }
 
@@ -921,6 +927,7 @@ func (db *BadgerDB) RawDelete(k storage.Key) error {
 	if db == nil {
 		return fmt.Errorf("Can't call RawDelete on nil BadgerDB")
 	}
+	dvid.VerifPoint("badger.RawDelete:before")
 	return db.bdp.Update(func(txn *badger.Txn) error {
 		return txn.Delete(k)
 	})
@@ -1062,6 +1069,7 @@ func (db *BadgerDB) DeleteAll(ctx storage.Context) error {
 			// the slice until it is flushed, so hand it a copy.
 			wb.Delete(item.KeyCopy(nil))
 			if (numKV+1)%BATCH_SIZE == 0 {
+				dvid.VerifPoint("badger.DeleteAllFlush:before")
 				if err := wb.Flush(); err != nil {
 					dvid.Criticalf("Error on flush of DeleteAll at key-value pair %d: %v\n", numKV, err)
 					return fmt.Errorf("Error on flush of DeleteAll at key-value pair %d: %v", numKV, err)
@@ -1072,6 +1080,7 @@ func (db *BadgerDB) DeleteAll(ctx storage.Context) error {
 			numKV++
 		}
 		if numKV%BATCH_SIZE != 0 {
+			dvid.VerifPoint("badger.DeleteAllFlush:before")
 			if err := wb.Flush(); err != nil {
 				dvid.Criticalf("Error on last flush of DeleteAll: %v\n", err)
 				return fmt.Errorf("Error on last flush of DeleteAll: %v", err)
@@ -1157,9 +1166,11 @@ func (batch *goBatch) Commit() error {
 		return fmt.Errorf("Received nil batch in batch.Commit()\n")
 	}
 	// fmt.Printf("WriteBatch is being flushed in commit...\n")
+	dvid.VerifPoint("badger.BatchCommit:before")
 	if err := batch.WriteBatch.Flush(); err != nil {
 		return err
 	}
+	dvid.VerifPoint("badger.BatchCommit:after")
 	batch.WriteBatch.Cancel()
 	return nil
 }
